@@ -1,23 +1,56 @@
 """Abstract interpretation of the pest-pair -> AST builders (DESIGN.md T9, builder side).
 
-Abstract values:  ("pair", rules) | ("opt", rules) | ("seq", rules) | ("tuple", [values]) | None
-A `Pair` expression denotes the set of grammar rules it may be a pair of. The interpreter walks the typed HIR of every
-function in parser::builder (flow-sensitively inside a body, with narrowing on `match p.as_rule()` / `is_rule`), joins
-function parameters over call sites to a fixpoint, and emits obligations:
+Abstract values (class V):
+  pair   a Pair: the set of grammar rules it may be a pair of
+  opt    Option<Pair> (also Result<Pair, _>)          seq    Pairs / Vec<Pair> / an iterator of pairs (optionally with a position)
+  text   the &str text of a pair                       ruleof the Rule of a pair (`p.as_rule()`), remembers which local
+  val    any other value                               tuple / closure / fn
+Every value carries its *provenance* `m`: {grammar rule -> rules of the pairs that pair was obtained from (ancestors)}, and
+`leaf`: the rules of the pairs whose own text / position was read into the value.  The interpreter walks the typed HIR of every
+function of the parser crate that handles pairs, flow-sensitively inside a body (branch environments are joined, a diverging
+branch is dropped, so `if !p.is_rule(X) { panic!() }`, `let .. else`, `matches!`, `match p.as_rule()` and `if let` all narrow),
+evaluates closures where they are applied, `for`/`loop` bodies on a widened environment, joins function parameters (all
+positions) over call sites to a fixpoint, evaluates helpers that *return* pairs / text (user-defined primitives), predicates
+(`fn is_x(&Pair) -> bool`) and helpers parametrised by a rule or a callback once per call site, and emits obligations:
 
   parts        L(R) ⊆ slot pattern, exactly            (panic if not accepted, silently dropped child if leftovers)
   only_child   every child sequence of R has length 1
   all_children alphabet(L(R)) ⊆ {X}
-  as_rule      a `match p.as_rule()` with a panicking fallback covers every rule p may be
-  text         a `match p.as_str()` with a panicking fallback covers the finite text language of p's rules
+  as_rule      a branch on the rule of a pair that panics is taken for no rule the pair may be
+  ident        to_ident()/to_keyword() only on name-like rules
+  text         a `match` over the text of a pair with a panicking fallback covers the finite text language of its rules
+
+A failed obligation is positive evidence only when the rule set is exact: a value whose rule set went through a construct the
+interpreter does not model precisely is marked `fuzzy`, and a failing obligation on it is recorded as *undecided*
+(detail["undecided"], "ok" stays True).  Struct literals of nitrogql_ast types record, per field, the provenance of the value
+(`fills`), independent of whether the expression is spelled with a local, a closure, a helper function or a loop.
 """
 from facts import norm, call_name, subnodes, lit_value, pat_lits
 import gram as G
 
 B = "nitrogql_parser::parser::builder"
+CRATE = "nitrogql_parser"
 RULE = "nitrogql_parser::parser::Rule::"
 PAIREXT = "nitrogql_parser::parser::builder::utils::PairExt::"
-PRIMS = ("<pest::iterators::pair::Pair<nitrogql_parser::parser::Rule> as nitrogql_parser::parser::builder::utils::PairExt>::",)
+PAIR_ADT = "pest::iterators::pair::Pair"
+PAIR_TY = "pest::iterators::pair::Pair<"
+PAIRS_TY = "pest::iterators::pairs::Pairs<"
+E = frozenset()
+
+# methods that hand the receiver's elements on unchanged
+PASS = {"into_iter", "iter", "iter_mut", "peekable", "by_ref", "rev", "collect", "cloned", "copied", "as_ref", "as_mut", "take",
+        "enumerate", "clone", "to_vec", "to_owned", "into_boxed_slice", "as_slice", "fuse", "borrow", "borrow_mut", "ok",
+        "as_deref", "as_deref_mut", "into", "unwrap_or_default", "iter_pairs", "drain", "ok_or", "ok_or_else", "flatten"}
+# the same elements, but the position in the sequence is lost
+PASS_NOPOS = {"skip", "step_by", "rev", "sorted", "chain", "cycle", "flatten", "drain"}
+# an element (Option) of the receiver
+ELEM = {"next", "peek", "first", "last", "pop", "nth", "next_back", "peek_mut", "pop_front", "pop_back", "get", "min", "max"}
+# adaptors whose function argument only selects among the receiver's elements (what the result is)
+SELECT = {"filter": "seq", "take_while": "seq", "retain": "seq", "find": "opt", "rfind": "opt", "next_if": "opt", "skip_while": "suffix"}
+UNWRAP = {"unwrap", "expect", "unwrap_unchecked", "unwrap_or_else", "unwrap_or"}
+GROW = {"push", "push_back", "push_front", "insert", "extend", "append", "push_str", "extend_from_slice"}
+PRIMS = {"only_child", "is_rule", "all_children", "to_pos", "to_keyword", "to_ident"}
+LEAF_READS = {"to_pos", "to_ident", "to_keyword", "as_str", "line_col", "as_span", "get_input", "to_string"}
 
 
 def rule_of_path(n):
@@ -34,6 +67,22 @@ def rules_in_pat(pat):
     return out
 
 
+def arm_rules(pat):
+    """rules an arm over `as_rule()` matches; an empty set when the pattern (or one of its alternatives) is a catch-all"""
+    alts, out = [pat], set()
+    while alts:
+        p = alts.pop()
+        while p.get("k") in ("Ref", "Deref", "Box") or (p.get("k") == "Binding" and "sub" in p):
+            p = p["p"] if "p" in p else p["sub"]
+        if p.get("k") == "Or":
+            alts.extend(p["ps"])
+        elif p.get("k") in ("Wild", "Binding"):
+            return set()
+        else:
+            out |= rules_in_pat(p)
+    return out
+
+
 def is_panic(node):
     for x in subnodes(node):
         if x.get("k") == "Call" and (call_name(x) or "").startswith("core::panicking::"):
@@ -41,126 +90,374 @@ def is_panic(node):
     return False
 
 
+def peel(n):
+    """look through references, temporaries and trivial blocks"""
+    while isinstance(n, dict):
+        k = n.get("k")
+        if k in ("DropTemps", "Use", "AddrOf", "Type"):
+            n = n["e"]
+        elif k == "Unary" and n.get("op") == "Deref":
+            n = n["e"]
+        elif k == "BlockExpr" and not n["b"]["stmts"] and "tail" in n["b"] and not n.get("x"):
+            n = n["b"]["tail"]
+        else:
+            break
+    return n
+
+
+def diverges(n):
+    """the expression never completes normally (panic, return, break, continue on every path)"""
+    if not isinstance(n, dict):
+        return False
+    if n.get("t") == "!":
+        return True
+    k = n.get("k")
+    if k in ("Ret", "Break", "Continue"):
+        return True
+    if k == "BlockExpr":
+        return diverges(n["b"])
+    if k == "Block":
+        for s in n["stmts"]:
+            if s.get("k") == "Stmt" and diverges(s["e"]):
+                return True
+            if s.get("k") == "Let" and "init" in s and diverges(s["init"]):
+                return True
+        return "tail" in n and diverges(n["tail"])
+    if k in ("DropTemps", "Use"):
+        return diverges(n["e"])
+    if k == "If":
+        return "else" in n and diverges(n["then"]) and diverges(n["else"])
+    if k == "Match":
+        return bool(n["arms"]) and all(diverges(a["body"]) for a in n["arms"])
+    if k == "Call":
+        return (call_name(n) or "").startswith("core::panicking::")
+    return False
+
+
+def _ty(n):
+    t = (n.get("t") or "") if isinstance(n, dict) else ""
+    while t.startswith("&"):
+        t = t[1:].lstrip()
+        if t.startswith("mut "):
+            t = t[4:]
+    return t
+
+
+def is_pair_ty(t):
+    return t.startswith(PAIR_TY)
+
+
+def has_pair_ty(t):
+    return PAIR_TY in t or PAIRS_TY in t
+
+
+# ---------------------------------------------------------------------------------------------------------- values
+class V:
+    __slots__ = ("kind", "m", "leaf", "pos", "elems", "node", "of", "fuzzy")
+
+    def __init__(self, kind, m=None, leaf=E, pos=None, elems=None, node=None, of=None, fuzzy=False):
+        self.kind = kind
+        self.m = m or {}
+        self.leaf = leaf
+        self.pos = pos        # positional seq: (parent value, index of the next child)
+        self.elems = elems
+        self.node = node
+        self.of = of          # ruleof / text: the local the pair lives in
+        self.fuzzy = fuzzy
+
+    @property
+    def rules(self):
+        return frozenset(self.m)
+
+    def sig(self):
+        return (self.kind, tuple(sorted((r, tuple(sorted(a))) for r, a in self.m.items())), tuple(sorted(self.leaf)), self.fuzzy,
+                tuple(e.sig() if e is not None else None for e in self.elems) if self.elems is not None else None,
+                (self.pos[1], self.pos[0].sig()) if self.pos else None)
+
+    def __repr__(self):
+        return "V(%s %s%s%s)" % (self.kind, sorted(self.m), " leaf=%s" % sorted(self.leaf) if self.leaf else "", " fuzzy" if self.fuzzy else "")
+
+
+PAIRLIKE = ("pair", "opt", "seq")
+
+
+def m_join(a, b):
+    if not b:
+        return a
+    if not a:
+        return b
+    out = dict(a)
+    for r, an in b.items():
+        out[r] = (out[r] | an) if r in out else an
+    return out
+
+
+def prov(v):
+    """(m, leaf, fuzzy) of any value"""
+    if v is None:
+        return {}, E, False
+    if v.kind == "tuple":
+        m, leaf, fz = {}, E, v.fuzzy
+        for e in v.elems:
+            a, b, c = prov(e)
+            m, leaf, fz = m_join(m, a), leaf | b, fz or c
+        return m, leaf, fz
+    if v.kind in ("closure", "fn"):
+        return {}, E, False
+    return v.m, v.leaf, v.fuzzy
+
+
+def mkval(*vs, **kw):
+    """a plain value computed from the given values"""
+    m, leaf, fz = {}, E, kw.get("fuzzy", False)
+    for v in vs:
+        a, b, c = prov(v)
+        m, leaf, fz = m_join(m, a), leaf | b, fz or c
+    if not m and not fz:
+        return None
+    return V("val", m, leaf, fuzzy=fz)
+
+
 def join(a, b):
     if a is None:
         return b
     if b is None:
         return a
-    if a[0] == b[0] and a[0] in ("pair", "opt", "seq"):
-        return (a[0], frozenset(a[1]) | frozenset(b[1]))
-    if a[0] == "tuple" and b[0] == "tuple" and len(a[1]) == len(b[1]):
-        return ("tuple", [join(x, y) for x, y in zip(a[1], b[1])])
-    return a
+    if a is b:
+        return a
+    if a.kind == b.kind:
+        k = a.kind
+        if k == "tuple":
+            if len(a.elems) == len(b.elems):
+                return V("tuple", elems=[join(x, y) for x, y in zip(a.elems, b.elems)], fuzzy=a.fuzzy or b.fuzzy)
+            return mkval(a, b, fuzzy=True)
+        if k in ("closure", "fn"):
+            return a
+        pos = None
+        if a.pos and b.pos and a.pos[1] == b.pos[1]:
+            # the children from index k on of either parent
+            pos = a.pos if a.pos[0] is b.pos[0] else (join(a.pos[0], b.pos[0]), a.pos[1])
+        of = a.of if a.of == b.of else None
+        return V(k, m_join(a.m, b.m), a.leaf | b.leaf, pos=pos, of=of, fuzzy=a.fuzzy or b.fuzzy)
+    if a.kind in PAIRLIKE and b.kind in PAIRLIKE:
+        if {a.kind, b.kind} == {"pair", "opt"}:
+            return V("opt", m_join(a.m, b.m), fuzzy=a.fuzzy or b.fuzzy)
+        return V("seq", m_join(a.m, b.m), fuzzy=True)
+    if a.kind in ("closure", "fn") or b.kind in ("closure", "fn"):
+        return a if a.kind in ("closure", "fn") else b
+    # an empty Option joined with a plain value (`Some(x.to_ident())` / `None`): no precision is lost
+    lossy = not ((a.kind == "opt" and not a.m) or (b.kind == "opt" and not b.m) or
+                 (a.kind in ("val", "text", "ruleof") and b.kind in ("val", "text", "ruleof")))
+    m, leaf, fz = {}, E, lossy
+    for v in (a, b):
+        x, y, z = prov(v)
+        m, leaf, fz = m_join(m, x), leaf | y, fz or z
+    return V("val", m, leaf, fuzzy=fz)
+
+
+def narrowed(v, rs, keep=True):
+    """the pair value restricted to (keep) / without (not keep) the rules rs"""
+    m = {r: a for r, a in v.m.items() if (r in rs) == keep}
+    return V(v.kind, m, v.leaf, pos=None, of=v.of, fuzzy=v.fuzzy)
 
 
 class BuilderAI:
     def __init__(self, P, grammar):
         self.P = P
         self.g = grammar
-        self.fns = {p: f for p, f in P.fns.items() if p.startswith(B) and not p.startswith(B + "::utils") and not f.derived}
-        self.params = {p: frozenset() for p in self.fns}     # rules of the first Pair parameter
-        self.pairs_params = {}                                  # for fns taking Pairs: element rules
-        self.text_params = {}                                   # for fns taking the &str text of a pair
+        self.fns = {}
+        for p, f in P.fns.items():
+            if f.crate != CRATE and not p.startswith(CRATE + "::"):
+                continue
+            if f.derived or "::tests::" in p or f.kind not in ("Fn", "AssocFn"):
+                continue
+            on_pair = (f.self_ty or "").startswith(PAIR_ADT)
+            if f.name in PRIMS and (on_pair or p.startswith(PAIREXT)):
+                continue        # the PairExt primitives are modelled, not analysed
+            if p.startswith(B) or on_pair or any("pest::iterators" in (t or "") for t in f.sig_inputs):
+                self.fns[p] = f
+        self.pvals = {p: [None] * len(f.params) for p, f in self.fns.items()}   # joined argument values, per position
+        self.rets = {}                                          # joined return values
+        self.called = set()                                     # functions with at least one call site seen
+        self.ident_sites = []                                   # Ident / Keyword literals: where name and position come from
         self.oblig = {}                                         # key -> dict
-        self.fills = {}                                         # (adt, field) -> set of source rules
+        self.fills = {}                                         # (adt, field) -> {"m", "leaf", "fuzzy", "fns", "sites"}
+        self.text_tables = []                                   # matches over the text of a pair: arms and what they build
+        self.rule_tables = []                                   # matches over the rule of a pair whose arms are literals
         self.notes = []
         self.changed = False
+        self._sbp = {}
+        self._first = {}
+        self._loopdepth = 0
+        self._quiet = 0         # > 0 while a helper is evaluated for one call site (nothing is recorded)
+        self._stack = []        # functions under evaluation
 
     # ------------------------------------------------------------------ driver
     def run(self):
-        # seeds: RawParser::parse(Rule::X, ..) results handed to the document builders
+        # seeds: RawParser::parse(Rule::X, ..) results handed to the document builders (flow-insensitive; the flow-sensitive
+        # evaluation of the entry functions adds nothing more precise)
         for f in self.P.fns.values():
-            if not f.path.startswith("nitrogql_parser::parser::parse_"):
+            if not f.path.startswith(CRATE + "::") or f.path in self.fns:
                 continue
-            seeds = {}
+            seed = None
             for n in f.walk():
                 if n.get("k") == "Call" and (call_name(n) or "").endswith("::parse") and n["args"]:
                     r = rule_of_path(n["args"][0])
                     if r:
-                        seeds["rule"] = r
+                        seed = r
+            if not seed:
+                continue
             for n in f.walk():
-                if n.get("k") == "Call" and call_name(n) in self.fns and "rule" in seeds:
-                    self._add_param(call_name(n), ("seq", frozenset({seeds["rule"]})))
-        for _ in range(12):
+                if n.get("k") == "Call" and call_name(n) in self.fns:
+                    for i, a in enumerate(n["args"]):
+                        if PAIRS_TY in _ty(a):
+                            self._add_param(call_name(n), i, V("seq", {seed: E}))
+                            self.called.add(call_name(n))
+        for _ in range(40):
             self.changed = False
             self.oblig = {}
             self.fills = {}
+            self.text_tables = []
+            self.rule_tables = []
+            self.ident_sites = []
             for p, f in self.fns.items():
                 self._analyse(f)
             if not self.changed:
                 break
+        else:
+            self.notes.append("fixpoint not reached in 40 rounds")
+        # views used by the rules
+        self.params, self.pairs_params, self.text_params = {}, {}, {}
+        for p, f in self.fns.items():
+            self.params[p] = frozenset()
+            for i, v in enumerate(self.pvals[p]):
+                t = f.sig_inputs[i] if i < len(f.sig_inputs) else ""
+                if v is None:
+                    continue
+                if v.kind == "seq" and PAIRS_TY in t:
+                    self.pairs_params[p] = self.pairs_params.get(p, frozenset()) | v.rules
+                elif v.kind == "text":
+                    self.text_params[p] = self.text_params.get(p, frozenset()) | v.rules
+                elif v.kind in PAIRLIKE and not self.params[p]:
+                    self.params[p] = v.rules
         return self
 
-    def _add_param(self, callee, val):
-        if val is None or callee not in self.fns:
-            return
-        if val[0] == "seq" and self._takes_pairs(callee):
-            cur = self.pairs_params.get(callee, frozenset())
-            new = cur | val[1]
-            if new != cur:
-                self.pairs_params[callee] = new
-                self.changed = True
-            return
-        if val[0] == "text":
-            cur = self.text_params.get(callee, frozenset())
-            new = cur | val[1]
-            if new != cur:
-                self.text_params[callee] = new
-                self.changed = True
-            return
-        if val[0] in ("pair", "opt", "seq"):
-            cur = self.params[callee]
-            new = cur | val[1]
-            if new != cur:
-                self.params[callee] = new
-                self.changed = True
+    def unreached(self):
+        """functions with a pair-typed parameter for which no call site supplied a rule set, or with no call site at all"""
+        out = []
+        for p, f in self.fns.items():
+            if f.params and p not in self.called:
+                out.append(p)
+                continue
+            for i, t in enumerate(f.sig_inputs):
+                if has_pair_ty(t or "") and (i >= len(self.pvals[p]) or self.pvals[p][i] is None or not self.pvals[p][i].m):
+                    out.append(p)
+                    break
+        return out
 
-    def _inner(self, S, k):
-        """children of a pair of one of the rules S, from child index k on: ("seq", symbols, S, k)"""
-        syms = set()
-        for R in S:
-            by_pos, rest = G.symbols_by_position(self.g.child_lang(R))
+    def _add_param(self, callee, i, val):
+        if val is None or callee not in self.fns or i >= len(self.pvals[callee]):
+            return
+        if val.of is not None and val.kind != "rulec":
+            val = V(val.kind, val.m, val.leaf, fuzzy=val.fuzzy)
+        cur = self.pvals[callee][i]
+        new = join(cur, val)
+        if cur is None or new.sig() != cur.sig():
+            self.pvals[callee][i] = new
+            self.changed = True
+
+    # ------------------------------------------------------------------ grammar queries
+    def _lang(self, R):
+        if R not in self.g.rules:
+            return G.EPS
+        return self.g.child_lang(R)
+
+    def _by_pos(self, R):
+        if R not in self._sbp:
+            self._sbp[R] = G.symbols_by_position(self._lang(R))
+        return self._sbp[R]
+
+    def _inner(self, parent, k):
+        """children of `parent` (a pair value) from child index k on"""
+        m = {}
+        for R, an in parent.m.items():
+            by_pos, rest = self._by_pos(R)
+            syms = set(rest)
             for i, ss in enumerate(by_pos):
                 if i >= k:
                     syms |= ss
-            syms |= rest
-        return ("seq", frozenset(syms), S, k)
+            for c in syms:
+                m[c] = m.get(c, E) | an | {R}
+        return V("seq", m, pos=(parent, k), fuzzy=parent.fuzzy)
 
-    def _at(self, S, k):
-        syms = set()
-        for R in S:
-            by_pos, rest = G.symbols_by_position(self.g.child_lang(R))
-            syms |= by_pos[k] if k < len(by_pos) else rest
-        return frozenset(syms)
+    def _at(self, parent, k):
+        m = {}
+        for R, an in parent.m.items():
+            by_pos, rest = self._by_pos(R)
+            for c in (by_pos[k] if k < len(by_pos) else rest):
+                m[c] = m.get(c, E) | an | {R}
+        return V("opt", m, fuzzy=parent.fuzzy)
 
-    def _takes_pairs(self, callee):
-        f = self.fns[callee]
-        return bool(f.sig_inputs) and "pest::iterators::pairs::Pairs" in f.sig_inputs[0]
+    def _child_m(self, parent, sym):
+        an = E
+        hit = False
+        for R, a in parent.m.items():
+            if R in self.g.rules and sym in self.g.alphabet(R):
+                an, hit = an | a | {R}, True
+        if not hit:
+            for R, a in parent.m.items():
+                an = an | a | {R}
+        return an
 
-    def _ob(self, kind, f, node, rule, ok, msg, detail=None):
-        key = "%s:%s:%s#%s" % (kind, f.path[len(B) + 2:], rule, node["s"][0])
-        # keys must not depend on line numbers: replace by ordinal of this kind within the function
-        base = "%s:%s:%s" % (kind, f.path[len(B) + 2:], rule)
+    def _ob(self, kind, f, node, rule, ok, msg, detail=None, fuzzy=False):
+        base = "%s:%s:%s" % (kind, self._rel(f.path), rule)
         n = sum(1 for k in self.oblig if k.startswith(base + "#") and self.oblig[k]["line"] != node["s"][0])
         key = "%s#%d" % (base, n)
+        detail = dict(detail or {})
+        if fuzzy and not ok:
+            # the rule set went through a construct that is not modelled exactly: no positive evidence
+            detail["undecided"] = True
+            detail["would_fail"] = True
+            ok = True
         self.oblig[key] = {"kind": kind, "fn": f.path, "line": node["s"][0], "rule": rule, "ok": ok, "msg": msg,
                            "detail": detail, "loc": "%s:%d" % (f.file, node["s"][0])}
+
+    @staticmethod
+    def _rel(path):
+        if path.startswith(B + "::"):
+            return path[len(B) + 2:]
+        if path.startswith(CRATE + "::"):
+            return path[len(CRATE) + 2:]
+        return path
 
     # ------------------------------------------------------------------ analysis of one function
     def _analyse(self, f):
         env = {}
-        if f.params:
-            p0 = f.params[0]
-            if p0.get("k") == "Binding":
-                if self._takes_pairs(f.path):
-                    env[p0["local"]] = ("seq", self.pairs_params.get(f.path, frozenset()))
-                elif f.sig_inputs and "pest::iterators::pair::Pair" in f.sig_inputs[0]:
-                    env[p0["local"]] = ("pair", self.params[f.path])
-                elif f.sig_inputs and f.sig_inputs[0] == "&str" and f.path in self.text_params:
-                    env[p0["local"]] = ("text", self.text_params[f.path])
+        vals = self.pvals[f.path]
+        for i, p in enumerate(f.params):
+            v = vals[i] if i < len(vals) else None
+            self._bind(p, v, env)
         self.cur = f
-        self._ev(f.body, env)
+        self._rets = []
+        self._loopdepth = 0
+        self._stack = [f.path]
+        out = self._ev(f.body, env)
+        if not diverges(f.body):
+            self._rets.append(out)
+        if has_pair_ty(f.sig_output or "") or f.sig_output in ("&str",):
+            r = None
+            for v in self._rets:
+                r = join(r, v)
+            if r is not None:
+                if r.of is not None:
+                    r = V(r.kind, r.m, r.leaf, fuzzy=r.fuzzy)
+                cur = self.rets.get(f.path)
+                new = join(cur, r)
+                if cur is None or new.sig() != cur.sig():
+                    self.rets[f.path] = new
+                    self.changed = True
 
+    # ------------------------------------------------------------------ patterns
     def _bind(self, pat, val, env):
         k = pat.get("k")
         if k == "Binding":
@@ -168,63 +465,129 @@ class BuilderAI:
             if "sub" in pat:
                 self._bind(pat["sub"], val, env)
         elif k == "Tuple":
-            vals = val[1] if val and val[0] == "tuple" else [None] * len(pat["ps"])
-            for p, v in zip(pat["ps"], vals + [None] * (len(pat["ps"]) - len(vals))):
-                self._bind(p, v, env)
-        elif k == "TupleStruct":
-            d = norm(pat.get("ctor_of") or pat.get("def") or "")
-            if d.endswith("Option::Some") and val and val[0] == "opt":
-                for p in pat["ps"]:
-                    self._bind(p, ("pair", val[1]), env)
-            elif d.endswith(("Result::Ok", "Result::Err")):
-                for p in pat["ps"]:
-                    self._bind(p, val, env)
+            ps = pat["ps"]
+            if val is not None and val.kind == "tuple" and len(val.elems) == len(ps) and "ddpos" not in pat:
+                for p, v in zip(ps, val.elems):
+                    self._bind(p, v, env)
             else:
-                for p in pat["ps"]:
+                # an element of unknown position: every component gets the whole provenance; a pair-typed component of a
+                # pair-like value (enumerate(), zip()) keeps its kind
+                for p in ps:
+                    if val is not None and val.kind in PAIRLIKE and is_pair_ty(_ty(p)):
+                        self._bind(p, V("pair", val.m, fuzzy=val.fuzzy), env)
+                    elif val is not None and val.kind in PAIRLIKE:
+                        self._bind(p, None if not has_pair_ty(_ty(p)) else V(val.kind, val.m, fuzzy=True), env)
+                    else:
+                        self._bind(p, mkval(val), env)
+        elif k in ("TupleStruct", "Struct"):
+            d = norm(pat.get("ctor_of") or pat.get("def") or "")
+            subs = pat["ps"] if k == "TupleStruct" else [f["p"] for f in pat.get("fields", [])]
+            if d.endswith(("Option::Some", "Result::Ok", "ControlFlow::Continue")):
+                inner = val
+                if val is not None and val.kind == "opt":
+                    inner = V("pair", val.m, fuzzy=val.fuzzy)
+                for p in subs:
+                    self._bind(p, inner, env)
+            elif d.endswith(("Result::Err", "ControlFlow::Break")):
+                for p in subs:
                     self._bind(p, None, env)
-        elif k in ("Ref", "Box", "Deref"):
+            else:
+                for p in subs:
+                    self._bind(p, mkval(val), env)
+        elif k in ("Ref", "Box", "Deref", "Guard"):
             self._bind(pat["p"], val, env)
         elif k == "Or":
             for p in pat["ps"]:
                 self._bind(p, val, env)
+        elif k == "Slice":
+            elem = V("pair", val.m, fuzzy=val.fuzzy) if val is not None and val.kind == "seq" else mkval(val)
+            for p in pat.get("ps", []) + pat.get("post", []):
+                self._bind(p, elem, env)
+            if "mid" in pat:
+                self._bind(pat["mid"], val, env)
 
+    # ------------------------------------------------------------------ environments
+    @staticmethod
+    def _merge(env, branches):
+        """join the values of the locals of `env` over the environments of the branches that complete normally"""
+        if not branches:
+            return
+        for l in list(env):
+            vs = [b.get(l) for b in branches]
+            if all(v is env[l] for v in vs):
+                continue
+            out = None
+            for v in vs:
+                out = join(out, v)
+            env[l] = out
+
+    def _widen(self, env):
+        for l, v in list(env.items()):
+            if v is not None and v.kind == "seq" and v.pos:
+                par, k = v.pos
+                env[l] = V("seq", self._inner(par, k).m, fuzzy=v.fuzzy)
+
+    # ------------------------------------------------------------------ parts!
     def _is_parts(self, n):
-        return n.get("k") == "BlockExpr" and n.get("x") == "parts"
+        if n.get("k") != "BlockExpr" or not n.get("x"):
+            return False
+        if n.get("x") == "parts":
+            return True
+        blk = n["b"]
+        lets = [s for s in blk["stmts"] if s.get("k") == "Let" and "init" in s]
+        if not lets or "tail" not in blk:
+            return False
+        chain = {x["method"] for x in subnodes(lets[0]["init"]) if x.get("k") == "MethodCall"}
+        if not {"into_inner", "peekable"} <= chain:
+            return False
+        tail = blk["tail"]
+        elems = tail["es"] if tail.get("k") == "Tup" else [tail]
+        return bool(elems) and all(self._slot_rule(e) for e in elems)
+
+    @staticmethod
+    def _slot_rule(e):
+        for x in subnodes(e):
+            if x.get("k") == "Let" and "init" in x and rule_of_path(x["init"]):
+                return rule_of_path(x["init"])
+        return None
 
     def _ev_parts(self, n, env):
         blk = n["b"]
-        lets = [s for s in blk["stmts"] if s.get("k") == "Let"]
         src = None
-        for s in lets:
+        for s in blk["stmts"]:
+            if s.get("k") != "Let":
+                continue
             for x in subnodes(s.get("init", {})):
-                if x.get("k") == "MethodCall" and x["method"] == "into_inner":
+                if x.get("k") == "MethodCall" and x["method"] == "into_inner" and src is None:
                     src = self._ev(x["recv"], env)
         tail = blk.get("tail")
         elems = tail["es"] if tail and tail.get("k") == "Tup" else ([tail] if tail else [])
         slots = []
         for e in elems:
-            opt = not (e.get("k") == "Match")
-            r = None
-            for x in subnodes(e):
-                if x.get("k") == "Let" and x["pat"].get("name") == "rule" and "init" in x:
-                    r = rule_of_path(x["init"])
-                    break
-            slots.append((r, opt))
+            opt = _ty(e).startswith("core::option::Option<") if e.get("t") else e.get("k") != "Match"
+            slots.append((self._slot_rule(e), opt))
         f = self.cur
-        if src and src[0] in ("pair",):
-            for R in sorted(src[1]):
-                bad = G.accepts_outside(self.g.child_lang(R), slots)
+        if src is not None and src.kind == "pair":
+            for R in sorted(src.m):
+                bad = G.accepts_outside(self._lang(R), slots)
                 pat = " ".join((s or "?") + ("?" if o else "") for s, o in slots)
                 words = [" ".join(w) for w in bad]
                 leftover = [w for w in bad if self._is_leftover(w, slots)]
                 self._ob("parts", f, n, R, not bad,
-                         "children of %s = %s ; builder pattern [%s]" % (R, G.show(self.g.child_lang(R)), pat),
+                         "children of %s = %s ; builder pattern [%s]" % (R, G.show(self._lang(R)), pat),
                          {"counterexamples": words, "slots": pat, "panics": any(not self._is_leftover(w, slots) for w in bad),
-                          "drops": bool(leftover)})
-        vals = [("opt", frozenset({r})) if o else ("pair", frozenset({r})) for r, o in slots]
+                          "drops": bool(leftover)}, fuzzy=src.fuzzy)
+        vals = []
+        for r, o in slots:
+            if src is None:
+                vals.append(None)       # not reached yet (bottom)
+                continue
+            an = self._child_m(src, r) if src.kind == "pair" else E
+            # the macro hands out a pair only when its rule is the slot's: exact whatever the precision of the parent
+            vals.append(V("opt" if o else "pair", {r: an} if r else {}, fuzzy=not r))
         if tail is not None and tail.get("k") != "Tup":
             return vals[0] if vals else None
-        return ("tuple", vals)
+        return V("tuple", elems=vals)
 
     @staticmethod
     def _is_leftover(word, slots):
@@ -242,42 +605,208 @@ class BuilderAI:
             i = j + 1
         return False
 
-    def _narrow_match(self, n, env):
-        """match X.as_rule() { Rule::A => .., rule => panic!(..) }"""
-        scrut = n["scrut"]
-        base = scrut["recv"]
-        if base.get("k") != "Path" or "local" not in base:
-            return False
-        val = env.get(base["local"])
-        if not val or val[0] != "pair":
-            S = None
-        else:
-            S = set(val[1])
-        covered = set()
-        f = self.cur
-        for arm in n["arms"]:
-            rs = rules_in_pat(arm["pat"])
-            e2 = dict(env)
-            if rs:
-                if S is not None:
-                    e2[base["local"]] = ("pair", frozenset(S & rs))
-                covered |= rs
-                self._ev(arm["body"], e2)
-            else:
-                rest = frozenset((S or set()) - covered)
-                if S is not None:
-                    e2[base["local"]] = ("pair", rest)
-                self._bind(arm["pat"], None, e2)
-                if is_panic(arm["body"]):
-                    if S is not None:
-                        self._ob("as_rule", f, n, "{%s}" % ",".join(sorted(S)) if len(S) > 3 else ",".join(sorted(S)), not rest,
-                                 "match over as_rule() handles %s" % sorted(covered), {"unhandled": sorted(rest)})
-                else:
-                    self._ev(arm["body"], e2)
-        return True
+    # ------------------------------------------------------------------ rule tests
+    def _pair_local(self, e, env):
+        """(local id, value) when e denotes a pair held in a local"""
+        e = peel(e)
+        if e.get("k") == "Path" and "local" in e:
+            v = env.get(e["local"])
+            if v is not None and v.kind == "pair":
+                return e["local"], v
+        return None, None
 
+    def _rule_subject(self, e, env):
+        """e evaluates to the rule of a pair held in a local: `p.as_rule()`, a local bound to it, PairExt::as_rule(&p)"""
+        e = peel(e)
+        if e.get("k") == "MethodCall" and e["method"] == "as_rule":
+            return self._pair_local(e["recv"], env)
+        if e.get("k") == "Call" and (call_name(e) or "").endswith("::as_rule") and len(e["args"]) == 1:
+            return self._pair_local(e["args"][0], env)
+        if e.get("k") == "Path" and "local" in e:
+            v = env.get(e["local"])
+            if v is not None and v.kind == "ruleof" and v.of is not None:
+                w = env.get(v.of)
+                if w is not None and w.kind == "pair":
+                    return v.of, w
+        return None, None
+
+    def _rule_const(self, e, env):
+        """the Rule an expression denotes: a `Rule::X` path or a local / parameter known to hold one"""
+        e = peel(e)
+        r = rule_of_path(e)
+        if r:
+            return r
+        if e.get("k") == "Path" and "local" in e:
+            v = env.get(e["local"])
+            if v is not None and v.kind == "rulec":
+                return v.of
+        return None
+
+    def _pred_call(self, g, args, env, depth):
+        """a call of a workspace predicate `fn(.., &Pair, .., Rule) -> bool` whose body is itself a recognised rule test"""
+        if len(args) != len(g.params) or depth > 3:
+            return None
+        env2, back = {}, {}
+        for i, (p, a) in enumerate(zip(g.params, args)):
+            if p.get("k") != "Binding":
+                return None
+            if a is None:
+                continue
+            if isinstance(a, V):
+                env2[p["local"]] = a
+                back[p["local"]] = p["local"]
+            else:
+                l, v = self._pair_local(a, env)
+                if l is not None:
+                    env2[p["local"]] = v
+                    back[p["local"]] = l
+                else:
+                    r = self._rule_const(a, env)
+                    if r:
+                        env2[p["local"]] = V("rulec", of=r)
+            if g.path in self.fns and p["local"] in env2 and not self._quiet:
+                self.called.add(g.path)
+                self._add_param(g.path, i, env2[p["local"]])
+        t = self._rule_test(peel(g.body), env2, depth + 1)
+        if t is not None and t[0] in back:
+            return back[t[0]], t[1], t[2]
+        return None
+
+    def _rule_test(self, c, env, depth=0):
+        """(local, value, rules for which the test is true) for a recognised boolean test of a pair's rule, else None"""
+        c = peel(c)
+        k = c.get("k")
+        if k == "Unary" and c.get("op") == "Not" and depth > 0:
+            t = self._rule_test(c["e"], env, depth)
+            return (t[0], t[1], t[1].rules - t[2]) if t is not None else None
+        if k == "MethodCall" and c["method"] == "is_rule" and c["args"]:
+            l, v = self._pair_local(c["recv"], env)
+            r = self._rule_const(c["args"][0], env)
+            if l is not None and r:
+                return l, v, frozenset({r})
+        if k == "Call" and (call_name(c) or "").endswith("::is_rule") and len(c["args"]) == 2:
+            l, v = self._pair_local(c["args"][0], env)
+            r = self._rule_const(c["args"][1], env)
+            if l is not None and r:
+                return l, v, frozenset({r})
+        if k == "Binary" and c.get("op") in ("==", "!="):
+            for a, b in ((c["l"], c["r"]), (c["r"], c["l"])):
+                l, v = self._rule_subject(a, env)
+                r = self._rule_const(b, env)
+                if l is not None and r:
+                    rs = frozenset({r})
+                    return l, v, (rs if c["op"] == "==" else v.rules - rs)
+        if k in ("Call", "MethodCall"):
+            g = self.P.fns.get(call_name(c) or "")
+            if g is not None and g.sig_output == "bool" and g.kind in ("Fn", "AssocFn") and not g.derived:
+                t = self._pred_call(g, ([c["recv"]] if k == "MethodCall" else []) + c["args"], env, depth)
+                if t is not None:
+                    return t
+        if k == "Match" and len(c["arms"]) >= 1:
+            # matches!(p.as_rule(), Rule::A | Rule::B)
+            l, v = self._rule_subject(c["scrut"], env)
+            if l is not None and all("guard" not in a and lit_value(a["body"]) in (True, False) for a in c["arms"]):
+                yes, seen = set(), set()
+                for a in c["arms"]:
+                    rs = arm_rules(a["pat"])
+                    reach = (v.rules & rs) - seen if rs else v.rules - seen
+                    seen |= reach
+                    if lit_value(a["body"]) is True:
+                        yes |= reach
+                return l, v, frozenset(yes)
+        return None
+
+    def _mentions_pair(self, c, env):
+        """locals holding a pair that an expression inspects in a way this model does not follow: a test on them may be a rule test
+        in disguise (a helper predicate, a comparison of texts, ..)"""
+        out = set()
+        for x in subnodes(c):
+            if x.get("k") == "Path" and "local" in x:
+                v = env.get(x["local"])
+                if v is None:
+                    continue
+                if v.kind == "pair":
+                    out.add(x["local"])
+                elif v.kind in ("ruleof", "text") and v.of is not None:
+                    w = env.get(v.of)
+                    if w is not None and w.kind == "pair":
+                        out.add(v.of)
+        return out
+
+    @staticmethod
+    def _fuzz(env, locals_):
+        for l in locals_:
+            v = env.get(l)
+            if v is not None and not v.fuzzy:
+                env[l] = V(v.kind, v.m, v.leaf, pos=v.pos, of=v.of, fuzzy=True)
+
+    @staticmethod
+    def _unfuzz(env, before, all_live):
+        """after a construct whose branches all complete: a local whose rule set is what it was before is as exact as before"""
+        if not all_live:
+            return
+        for l, b in before.items():
+            v = env.get(l)
+            if v is not None and b is not None and v is not b and v.fuzzy and not b.fuzzy and v.kind == b.kind and v.m == b.m:
+                env[l] = b
+
+    def _cond(self, c, env):
+        """evaluate a condition: (environment when true, environment when false)"""
+        c0 = c
+        c = peel(c)
+        k = c.get("k")
+        if k == "Unary" and c.get("op") == "Not":
+            t, e = self._cond(c["e"], env)
+            return e, t
+        if k == "Binary" and c.get("op") == "&&":
+            t1, e1 = self._cond(c["l"], env)
+            t2, e2 = self._cond(c["r"], t1)
+            ee = dict(env)
+            self._merge(ee, [e1, e2])
+            return t2, ee
+        if k == "Binary" and c.get("op") == "||":
+            t1, e1 = self._cond(c["l"], env)
+            t2, e2 = self._cond(c["r"], e1)
+            tt = dict(env)
+            self._merge(tt, [t1, t2])
+            return tt, e2
+        if k == "LetExpr":
+            l, v = self._rule_subject(c["init"], env)
+            rs = rules_in_pat(c["pat"])
+            t, e = dict(env), dict(env)
+            if l is not None and rs and not any(x.get("k") == "Binding" for x in subnodes(c["pat"])):
+                t[l], e[l] = narrowed(v, rs), narrowed(v, rs, False)
+                return t, e
+            val = self._ev(c["init"], env)
+            t, e = dict(env), dict(env)
+            if val is None or val.kind in ("val", "ruleof", "text", "tuple"):
+                fz = self._mentions_pair(c["init"], env)     # a refutable pattern on something computed from pairs
+                self._fuzz(t, fz)
+                self._fuzz(e, fz)
+            self._bind(c["pat"], val, t)
+            return t, e
+        tst = self._rule_test(c, env)
+        if tst is not None:
+            l, v, yes = tst
+            t, e = dict(env), dict(env)
+            t[l], e[l] = narrowed(v, yes), narrowed(v, yes, False)
+            return t, e
+        fz = self._mentions_pair(c, env)
+        self._ev(c0, env)
+        t, e = dict(env), dict(env)
+        self._fuzz(t, fz)
+        self._fuzz(e, fz)
+        return t, e
+
+    def _guard_ob(self, node, local, before, reach, what):
+        """a panicking branch is taken when the pair in `local` is one of `reach`"""
+        S = before.rules
+        self._ob("as_rule", self.cur, node, "{%s}" % ",".join(sorted(S)) if len(S) > 3 else ",".join(sorted(S)), not reach, what,
+                 {"unhandled": sorted(reach)}, fuzzy=before.fuzzy)
+
+    # ------------------------------------------------------------------ expressions
     def _ev(self, n, env):
-        if n is None:
+        if n is None or not isinstance(n, dict):
             return None
         k = n.get("k")
         if k == "BlockExpr":
@@ -288,237 +817,686 @@ class BuilderAI:
             for s in n["stmts"]:
                 if s.get("k") == "Let":
                     v = self._ev(s["init"], env) if "init" in s else None
-                    if v is None and "init" in s:
-                        srcs = self._sources(s["init"], env)
-                        if srcs:
-                            v = ("val", frozenset(srcs))
-                    self._bind(s["pat"], v, env)
                     if "els" in s:
                         self._ev(s["els"], dict(env))
+                        self._let_else_test(s, env)
+                        if (v is None or v.kind in ("val", "text", "tuple")) and "init" in s:
+                            self._fuzz(env, self._mentions_pair(s["init"], env))   # a refutable pattern on something computed from pairs
+                    self._bind(s["pat"], v, env)
                 elif s.get("k") == "Stmt":
                     self._ev(s["e"], env)
+                else:
+                    self._ev(s, env)
             return self._ev(n["tail"], env) if "tail" in n else None
         if k == "Path":
-            return env.get(n["local"]) if "local" in n else None
+            if "local" in n:
+                return env.get(n["local"])
+            d = norm(n.get("def", "") or "")
+            if d.endswith("Option::None"):
+                return V("opt")
+            if d.startswith(RULE):
+                return V("rulec", of=d[len(RULE):])
+            if n.get("dk") in ("Fn", "AssocFn"):
+                return V("fn", of=norm(n.get("rd") or n["def"]))
+            return None
         if k in ("DropTemps", "Use", "AddrOf", "Cast", "Type"):
             return self._ev(n["e"], env)
         if k == "Unary":
-            return self._ev(n["e"], env)
+            v = self._ev(n["e"], env)
+            return v if n.get("op") == "Deref" else mkval(v)
         if k == "Closure":
-            return ("closure", n)
+            return V("closure", node=n)
         if k == "Ret":
-            return self._ev(n.get("e"), env)
+            v = self._ev(n.get("e"), env)
+            self._rets.append(v)
+            return None
+        if k in ("Break", "Continue"):
+            self._ev(n.get("e"), env)
+            return None
         if k == "If":
             return self._ev_if(n, env)
         if k == "Match":
-            sc = n["scrut"]
-            if sc.get("k") == "MethodCall" and sc["method"] == "as_rule":
-                if self._narrow_match(n, env):
-                    return None
-            if sc.get("k") == "MethodCall" and sc["method"] == "as_str":
-                self._text_match(n, env, self._ev(sc["recv"], env))
-            elif sc.get("k") == "Path" and "local" in sc and (env.get(sc["local"]) or (None,))[0] == "text":
-                v = env[sc["local"]]
-                self._text_match(n, env, ("pair", v[1]))
-            v = self._ev(sc, env)
-            out = None
-            for arm in n["arms"]:
-                e2 = dict(env)
-                self._bind(arm["pat"], v, e2)
-                out = join(out, self._ev(arm["body"], e2))
-            return out
+            return self._ev_match(n, env)
         if k == "Struct" and "rest" not in n:
             adt = norm(n.get("variant") or n.get("adt") or "")
+            vals = []
             for fld in n["fields"]:
-                self._ev(fld["e"], env)
-                srcs = self._sources(fld["e"], env)
+                v = self._ev(fld["e"], env)
+                vals.append(v)
                 if adt.startswith("nitrogql_ast::"):
-                    self.fills.setdefault((adt, fld["name"]), set()).update(srcs)
-            return None
+                    m, leaf, fz = prov(v)
+                    rec = self.fills.setdefault((adt, fld["name"]), {"m": {}, "leaf": E, "fuzzy": False, "fns": set(), "sites": 0})
+                    rec["m"], rec["leaf"], rec["fuzzy"] = m_join(rec["m"], m), rec["leaf"] | leaf, rec["fuzzy"] or fz
+                    rec["fns"].add(self.cur.path)
+                    rec["sites"] += 1
+            if "base" in n and isinstance(n["base"], dict):
+                vals.append(self._ev(n["base"], env))
+            if adt in ("nitrogql_ast::base::Ident", "nitrogql_ast::base::Keyword"):
+                by = {fld["name"]: prov(v) for fld, v in zip(n["fields"], vals)}
+                self.ident_sites.append({"fn": self.cur.path, "loc": "%s:%d" % (self.cur.file, n["s"][0]), "adt": adt.split("::")[-1], "by": by})
+            return mkval(*vals)
         if k == "MethodCall":
-            return self._ev_method(n, env)
+            return self._ev_method(n, n["method"], n["recv"], n["args"], env)
         if k == "Call":
             return self._ev_call(n, env)
-        if k in ("Tup", "Array"):
-            vals = [self._ev(x, env) for x in n["es"]]
-            return ("tuple", vals) if k == "Tup" else None
+        if k == "Tup":
+            return V("tuple", elems=[self._ev(x, env) for x in n["es"]])
+        if k == "Field":
+            v = self._ev(n["e"], env)
+            if v is not None and v.kind == "tuple" and str(n.get("field", "")).isdigit() and int(n["field"]) < len(v.elems):
+                return v.elems[int(n["field"])]
+            return mkval(v)
         if k == "Loop":
-            self._ev(n["body"], env)
+            self._widen(env)
+            self._loopdepth += 1
+            for _ in range(2):
+                e2 = dict(env)
+                self._ev(n["body"], e2)
+                self._merge(env, [env, e2])
+                self._widen(env)
+            self._loopdepth -= 1
             return None
-        # generic: evaluate children for their obligations
+        if k in ("Assign", "AssignOp"):
+            v = self._ev(n["r"], env)
+            base = n["l"]
+            projected = False
+            while base.get("k") in ("Field", "Index", "Unary"):
+                projected = projected or base.get("k") != "Unary"
+                base = base["e"]
+            if base.get("k") == "Path" and "local" in base:
+                l = base["local"]
+                if k == "Assign" and not projected:
+                    env[l] = v
+                else:
+                    env[l] = join(env.get(l), mkval(v))
+            else:
+                self._ev(n["l"], env)
+            return None
+        if k == "Lit":
+            return None
+        # generic: evaluate the children; the value derives from all of them
+        vals = []
         for key, v in n.items():
             if isinstance(v, dict) and "k" in v:
-                self._ev(v, env)
+                vals.append(self._ev(v, env))
             elif isinstance(v, list):
                 for x in v:
                     if isinstance(x, dict) and "k" in x:
-                        self._ev(x, env)
+                        vals.append(self._ev(x, env))
                     elif isinstance(x, dict) and "e" in x:
-                        self._ev(x["e"], env)
-        return None
+                        vals.append(self._ev(x["e"], env))
+        return mkval(*vals)
+
+    def _let_else_test(self, s, env):
+        """`let Rule::X = p.as_rule() else { panic!() }` narrows p"""
+        l, v = self._rule_subject(s["init"], env) if "init" in s else (None, None)
+        rs = rules_in_pat(s["pat"])
+        if l is not None and rs:
+            if is_panic(s["els"]):
+                self._guard_ob(s, l, v, v.rules - rs, "`let %s = as_rule() else panic`" % "|".join(sorted(rs)))
+            env[l] = narrowed(v, rs)
 
     def _ev_if(self, n, env):
         c = n["cond"]
-        while c.get("k") == "DropTemps":
-            c = c["e"]
-        then_env, else_env = dict(env), dict(env)
-        if c.get("k") == "LetExpr":
-            v = self._ev(c["init"], env)
-            self._bind(c["pat"], v, then_env)
-            a = self._ev(n["then"], then_env)
-            b = self._ev(n["else"], else_env) if "else" in n else None
-            return join(a, b)
-        # p.is_rule(Rule::X)
-        if c.get("k") == "MethodCall" and c["method"] == "is_rule" and c["recv"].get("k") == "Path" and "local" in c["recv"]:
-            r = rule_of_path(c["args"][0]) if c["args"] else None
-            v = env.get(c["recv"]["local"])
-            if r and v and v[0] == "pair":
-                then_env[c["recv"]["local"]] = ("pair", v[1] & {r})
-                else_env[c["recv"]["local"]] = ("pair", v[1] - {r})
-        # p.as_rule() != Rule::X { panic }
-        if c.get("k") == "Binary" and c.get("op") in ("!=", "==") and c["l"].get("k") == "MethodCall" and c["l"]["method"] == "as_rule":
-            base = c["l"]["recv"]
-            r = rule_of_path(c["r"])
-            if base.get("k") == "Path" and "local" in base and r:
-                v = env.get(base["local"])
-                if v and v[0] == "pair" and c["op"] == "!=" and is_panic(n["then"]):
-                    rest = v[1] - {r}
-                    self._ob("as_rule", self.cur, n, ",".join(sorted(v[1])), not rest, "guard `as_rule() != %s => panic`" % r, {"unhandled": sorted(rest)})
-                    env[base["local"]] = ("pair", v[1] & {r})
-                    else_env = env
-        else:
-            self._ev(c, env)
+        before = dict(env)
+        tst = self._rule_test(self._strip_not(c)[0], env) if peel(c).get("k") != "LetExpr" else None
+        then_env, else_env = self._cond(c, env)
+        if tst is not None:
+            l, v, _ = tst
+            if diverges(n["then"]) and is_panic(n["then"]):
+                self._guard_ob(n, l, v, then_env[l].rules, "guard: the branch for %s panics" % sorted(then_env[l].rules))
+            elif "else" in n and diverges(n["else"]) and is_panic(n["else"]):
+                self._guard_ob(n, l, v, else_env[l].rules, "guard: the branch for %s panics" % sorted(else_env[l].rules))
         a = self._ev(n["then"], then_env)
         b = self._ev(n["else"], else_env) if "else" in n else None
-        return join(a, b)
+        live = []
+        if not diverges(n["then"]):
+            live.append(then_env)
+        if "else" not in n or not diverges(n["else"]):
+            live.append(else_env)
+        self._merge(env, live)
+        self._unfuzz(env, before, len(live) == 2)
+        out = None
+        if not diverges(n["then"]):
+            out = a
+        if "else" in n and not diverges(n["else"]):
+            out = join(out, b)
+        return self._with_control(out, self._cond_prov(c, env))
+
+    @staticmethod
+    def _strip_not(c):
+        neg = False
+        c = peel(c)
+        while c.get("k") == "Unary" and c.get("op") == "Not":
+            neg = not neg
+            c = peel(c["e"])
+        return c, neg
+
+    def _cond_prov(self, c, env):
+        """provenance of the pairs a condition inspects (control dependence, structural)"""
+        vs = []
+        for x in subnodes(c):
+            if x.get("k") == "Path" and "local" in x:
+                v = env.get(x["local"])
+                if v is not None and v.kind in ("pair", "opt", "seq", "text", "ruleof", "val"):
+                    vs.append(v)
+        return vs
+
+    @staticmethod
+    def _with_control(out, ctl):
+        """a value selected by a test on pairs also depends (structurally) on those pairs; pair-like values keep their kind"""
+        m, fz = {}, False
+        for v in ctl:
+            if v is not None:
+                m, fz = m_join(m, v.m), fz or v.fuzzy
+        if not m and not fz:
+            return out
+        if out is None:
+            return V("val", m, fuzzy=fz)
+        if out.kind in ("val", "text", "ruleof"):
+            return V("val", m_join(out.m, m), out.leaf, fuzzy=out.fuzzy or fz)
+        return out
+
+    def _ev_match(self, n, env):
+        sc = n["scrut"]
+        f = self.cur
+        l, v = self._rule_subject(sc, env)
+        if l is not None and not any("guard" in a for a in n["arms"]):
+            # match p.as_rule() { Rule::A => .., rule => panic!(..) }
+            seen = set()
+            live, out = [], None
+            table = {}
+            panicking = set()
+            handled = set()
+            has_panic = False
+            for arm in n["arms"]:
+                rs = arm_rules(arm["pat"])
+                reach = (v.rules & rs) - seen if rs else v.rules - seen
+                seen |= reach
+                e2 = dict(env)
+                e2[l] = narrowed(v, reach)
+                if not rs:
+                    self._bind(arm["pat"], V("ruleof", e2[l].m, of=l, fuzzy=v.fuzzy), e2)
+                dv = diverges(arm["body"])
+                if dv and is_panic(arm["body"]):
+                    has_panic = True
+                    panicking |= reach
+                else:
+                    handled |= rs if rs else reach
+                val = self._ev(arm["body"], e2)
+                lv = lit_value(arm["body"])
+                if lv is not None:
+                    for r in (rs or reach):
+                        table[r] = lv
+                if not dv:
+                    live.append(e2)
+                    out = join(out, val)
+            if has_panic:
+                self._guard_ob(n, l, v, panicking, "match over as_rule() handles %s" % sorted(handled))
+            if table:
+                self.rule_tables.append({"fn": f.path, "loc": "%s:%d" % (f.file, n["s"][0]), "table": table, "subject": sorted(v.rules)})
+            self._merge(env, live)
+            return self._with_control(out, [v])
+        val = self._ev(sc, env)
+        if val is not None and val.kind == "text":
+            self._text_match(n, env, val)
+        before = dict(env)
+        fz = set()
+        if l is not None:
+            fz.add(l)       # guarded arms over the rule of a pair: not modelled exactly
+        if val is None or val.kind in ("val", "ruleof", "text", "tuple"):
+            # the arms are selected by something computed from pairs: inside them the pairs may be narrower than this model knows
+            fz |= self._mentions_pair(sc, env)
+        live, out = [], None
+        for arm in n["arms"]:
+            e2 = dict(env)
+            self._fuzz(e2, fz)
+            self._bind(arm["pat"], val, e2)
+            if "guard" in arm:
+                t, _ = self._cond(arm["guard"], e2)
+                e2 = t
+            r = self._ev(arm["body"], e2)
+            if not diverges(arm["body"]):
+                live.append(e2)
+                out = join(out, r)
+        self._merge(env, live)
+        self._unfuzz(env, before, len(live) == len(n["arms"]) and not any("guard" in a for a in n["arms"]))
+        if n.get("src") in (None, "Normal") and val is not None and val.kind in ("opt", "text", "ruleof", "val", "pair"):
+            return self._with_control(out, [val])
+        return out
 
     def _text_match(self, n, env, v):
         lits = set()
         fallback_panics = False
+        arms = {}
         for arm in n["arms"]:
             ls = pat_lits(arm["pat"])
             if ls:
                 lits |= set(ls)
+                made = [norm(x.get("def", "")) for x in subnodes(arm["body"]) if x.get("k") == "Path" and str(x.get("dk", "")).startswith("Ctor")]
+                for l in ls:
+                    arms[l] = {"lit": lit_value(arm["body"]), "ctor": made[0] if made else None}
             elif is_panic(arm["body"]):
                 fallback_panics = True
-        if v and v[0] == "pair" and fallback_panics:
-            for R in sorted(v[1]):
-                tl = self.g.text_lang(R)
+        self.text_tables.append({"fn": self.cur.path, "loc": "%s:%d" % (self.cur.file, n["s"][0]), "rules": sorted(v.rules), "arms": arms,
+                                 "fallback_panics": fallback_panics, "fuzzy": v.fuzzy})
+        if fallback_panics:
+            for R in sorted(v.rules):
+                tl = self.g.text_lang(R) if R in self.g.rules else None
                 if tl is None:
                     self._ob("text", self.cur, n, R, True, "text language of %s is not finite: not decided" % R, {"undecided": True})
                 else:
                     self._ob("text", self.cur, n, R, tl <= lits, "texts of %s = %s ; arms = %s" % (R, sorted(tl), sorted(lits)),
-                             {"unhandled": sorted(tl - lits), "dead": sorted(lits - tl)})
+                             {"unhandled": sorted(tl - lits), "dead": sorted(lits - tl)}, fuzzy=v.fuzzy)
 
-    def _apply(self, fval, argval, env):
-        """apply a closure value / fn path to an element value"""
-        if fval and fval[0] == "closure":
-            c = fval[1]
-            e2 = dict(env)
-            if c["params"]:
-                self._bind(c["params"][0], argval, e2)
-            return self._ev(c["body"], e2)
-        return None
-
-    def _ev_method(self, n, env):
-        m = n["method"]
-        recv = n["recv"]
-        callee = norm(n.get("callee") or "")
-        f = self.cur
-        rv = self._ev(recv, env)
-        args = n["args"]
-        if callee.startswith(PAIREXT) or callee.startswith("pest::iterators::pair::Pair::"):
-            S = rv[1] if rv and rv[0] == "pair" else None
-            if m == "only_child":
-                out = set()
-                if S is not None:
-                    for R in sorted(S):
-                        L = self.g.child_lang(R)
-                        ls = G.lengths(L)
-                        ok = ls == {1}
-                        self._ob("only_child", f, n, R, ok, "children of %s = %s" % (R, G.show(L)), {"lengths": sorted(ls)})
-                        out |= G.first_symbols(L)
-                    return ("pair", frozenset(out))
-                return None
-            if m == "all_children":
-                r = rule_of_path(args[0]) if args else None
-                if S is not None and r:
-                    for R in sorted(S):
-                        al = self.g.alphabet(R)
-                        self._ob("all_children", f, n, R, al <= {r}, "children of %s = %s ; expected only %s" % (R, G.show(self.g.child_lang(R)), r),
-                                 {"others": sorted(al - {r})})
-                return ("seq", frozenset({r})) if r else None
-            if m == "into_inner":
-                if S is not None:
-                    return self._inner(frozenset(S), 0)
-                return None
-            if m in ("to_ident", "to_keyword") and S is not None:
-                for R in sorted(S):
-                    self._ob("ident", f, n, R, self.g.is_name_like(R), "%s() on a %s pair" % (m, R), {"rule": R})
-            if m == "as_str" and S is not None:
-                return ("text", frozenset(S))
-            return None  # as_rule, to_ident, to_pos, to_keyword, is_rule, line_col ...
-        # generic iterator / option plumbing
-        if m in ("into_iter", "iter", "peekable", "by_ref", "rev", "collect", "cloned", "as_ref", "take", "skip", "enumerate"):
-            return rv
-        if m in ("next", "peek", "first", "last", "pop"):
-            if rv and rv[0] == "seq" and len(rv) == 4 and m == "next":
-                S, k = rv[2], rv[3]
-                if recv.get("k") == "Path" and "local" in recv:
-                    env[recv["local"]] = self._inner(S, k + 1)
-                return ("opt", self._at(S, k))
-            return ("opt", rv[1]) if rv and rv[0] == "seq" else None
-        if m in ("unwrap", "expect"):
-            return ("pair", rv[1]) if rv and rv[0] == "opt" else rv
-        if m == "filter" and args:
-            cv = self._ev(args[0], env)
-            if rv and rv[0] == "seq" and cv and cv[0] == "closure":
-                body = cv[1]["body"]
-                # |pair| pair.is_rule(Rule::X)
-                for x in subnodes(body):
-                    if x.get("k") == "MethodCall" and x["method"] == "is_rule" and x["args"]:
-                        r = rule_of_path(x["args"][0])
-                        if r:
-                            return ("seq", frozenset(rv[1]) & {r})
-            return rv
-        if m in ("map", "map_or", "map_or_else", "flat_map", "filter_map", "for_each", "and_then", "find", "any", "all"):
-            fn_arg = args[-1] if args else None
-            if fn_arg is None:
-                return None
-            elem = None
-            if rv and rv[0] in ("seq", "opt"):
-                elem = ("pair", rv[1])
-            for a in args[:-1]:
-                self._ev(a, env)
-            if fn_arg.get("k") == "Closure":
-                self._apply(("closure", fn_arg), elem, env)
-            elif fn_arg.get("k") == "Path" and fn_arg.get("dk") in ("Fn", "AssocFn"):
-                self._add_param(norm(fn_arg["def"]), elem)
-            else:
-                self._ev(fn_arg, env)
+    # ------------------------------------------------------------------ calls
+    def _apply(self, fval, argvals, env):
+        """apply a closure value / fn item to argument values"""
+        if fval is None:
             return None
-        for a in args:
-            self._ev(a, env)
+        if fval.kind == "closure":
+            c = fval.node
+            e2 = dict(env)
+            for i, p in enumerate(c["params"]):
+                self._bind(p, argvals[i] if i < len(argvals) else None, e2)
+            saved, self._rets = self._rets, []
+            out = self._ev(c["body"], e2)
+            for r in self._rets:        # `return` inside a closure leaves the closure
+                out = join(out, r)
+            self._rets = saved
+            for p in c["params"]:
+                for x in subnodes(p):
+                    if x.get("k") == "Binding":
+                        e2.pop(x["local"], None)
+            self._merge(env, [env, e2])
+            return out
+        if fval.kind == "fn":
+            return self._call_fn(fval.of, argvals)
         return None
+
+    def _call_fn(self, callee, argvals):
+        if callee in self.fns:
+            if not self._quiet:
+                self.called.add(callee)
+                for i, v in enumerate(argvals):
+                    self._add_param(callee, i, v)
+            f = self.fns[callee]
+            pairish = has_pair_ty(f.sig_output or "") or f.sig_output in ("&str",)
+            # a helper parametrised by a rule or a function (`build_list(pair, Rule::X, build_x)`): joined over its call sites these
+            # parameters mean nothing, so its body is evaluated, and recorded, once per call site
+            generic = any(v is not None and v.kind in ("fn", "closure", "rulec") for v in argvals)
+            if pairish or generic:
+                # a helper that yields pairs / text is a user-defined primitive: evaluated for *this* call's arguments, so that a
+                # helper shared by many callers does not blur their rule sets
+                if callee not in self._stack and len(self._stack) < 4:
+                    r = self._eval_in_context(f, argvals, quiet=not generic or bool(self._quiet))
+                    return r if pairish else mkval(*argvals)
+                if not pairish:
+                    return mkval(*argvals)
+                r = self.rets.get(callee)          # recursion: the summary joined over all call sites, None until it exists
+                return V(r.kind, r.m, r.leaf, elems=r.elems, fuzzy=True) if r is not None else None
+            return mkval(*argvals)
+        return mkval(*argvals)
+
+    def _eval_in_context(self, f, argvals, quiet=True):
+        """the value `f` returns for these argument values; when quiet nothing is recorded (f's own analysis records its obligations)"""
+        saved = (self.cur, self._rets, self._loopdepth, self.oblig, self.fills, self.text_tables, self.rule_tables, self.ident_sites)
+        if quiet:
+            self.oblig, self.fills, self.text_tables, self.rule_tables, self.ident_sites = {}, {}, [], [], []
+            self._quiet += 1
+        self._stack.append(f.path)
+        try:
+            env = {}
+            for i, p in enumerate(f.params):
+                self._bind(p, argvals[i] if i < len(argvals) else None, env)
+            self.cur, self._rets, self._loopdepth = f, [], 0
+            out = self._ev(f.body, env)
+            if not diverges(f.body):
+                self._rets.append(out)
+            r = None
+            for v in self._rets:
+                r = join(r, v)
+            if r is not None and r.of is not None:
+                r = V(r.kind, r.m, r.leaf, pos=r.pos, fuzzy=r.fuzzy)
+            return r
+        finally:
+            self._stack.pop()
+            if quiet:
+                self._quiet -= 1
+                (self.cur, self._rets, self._loopdepth, self.oblig, self.fills, self.text_tables, self.rule_tables, self.ident_sites) = saved
+            else:
+                self.cur, self._rets, self._loopdepth = saved[:3]
+
+    def _out_params(self, args, vals, env):
+        """a local handed to a call by `&mut` may be filled from the other arguments (out-parameter) or advanced (an iterator)"""
+        for i, a in enumerate(args):
+            if not (isinstance(a, dict) and a.get("k") == "AddrOf" and a.get("mut")):
+                continue
+            b = peel(a)
+            if b.get("k") != "Path" or "local" not in b:
+                continue
+            cur = env.get(b["local"])
+            others = [v for j, v in enumerate(vals) if j != i]
+            if cur is not None and cur.kind in PAIRLIKE:
+                if cur.pos:
+                    env[b["local"]] = V(cur.kind, cur.m, fuzzy=cur.fuzzy)
+            else:
+                new = mkval(cur, *others)
+                if new is not None:
+                    env[b["local"]] = new
+
+    def _elem(self, rv):
+        if rv is not None and rv.kind in ("seq", "opt"):
+            return V("pair", rv.m, fuzzy=rv.fuzzy)
+        if rv is not None and rv.kind == "pair":
+            return rv
+        return mkval(rv)
+
+    def _closure_args(self, fn_arg, elem, acc=None):
+        """argument values for a closure / fn item applied by an adaptor: pair-typed parameters receive the element"""
+        if fn_arg.get("k") == "Closure":
+            ps = fn_arg["params"]
+            if len(ps) <= 1:
+                return [elem]
+            out = []
+            for p in ps:
+                out.append(elem if has_pair_ty(_ty(p)) else acc)
+            return out
+        return [elem]
+
+    def _select(self, m, rv, args, env):
+        """the elements of rv a selecting adaptor keeps, as a pair value: narrowed by a recognised predicate, else marked fuzzy"""
+        elem = self._elem(rv)
+        c = args[0]
+        if c.get("k") == "Closure" and c["params"] and SELECT[m] != "suffix":
+            e2 = dict(env)
+            self._bind(c["params"][0], elem, e2)
+            pl = [x["local"] for x in subnodes(c["params"][0]) if x.get("k") == "Binding"]
+            body = peel(c["body"])
+            if body.get("k") == "BlockExpr" and "tail" in body["b"]:
+                # statements before the final test (an all_children-style check)
+                for st in body["b"]["stmts"]:
+                    self._ev({"k": "Block", "stmts": [st], "s": st.get("s")}, e2)
+                body = body["b"]["tail"]
+            t, _ = self._cond(body, e2)
+            kept = t.get(pl[0]) if len(pl) == 1 else None
+            self._merge(env, [env, {k2: v2 for k2, v2 in e2.items() if k2 not in pl}])
+            for a in args[1:]:
+                self._ev(a, env)
+            if kept is not None and kept.kind == "pair":
+                return V("pair", kept.m, fuzzy=kept.fuzzy or rv.fuzzy)
+            return V("pair", rv.m, fuzzy=True)
+        kept = None
+        for i, a in enumerate(args):
+            if a.get("k") == "Closure":
+                self._apply(V("closure", node=a), [elem], env)
+            else:
+                fv = self._ev(a, env)
+                if fv is not None and fv.kind in ("fn", "closure"):
+                    self._apply(fv, [elem], env)
+                if i == 0 and fv is not None and fv.kind == "fn" and SELECT[m] != "suffix" and elem is not None and elem.kind == "pair":
+                    g = self.P.fns.get(fv.of)
+                    if g is not None and g.sig_output == "bool" and len(g.params) == 1:
+                        t = self._pred_call(g, [elem], env, 0)
+                        if t is not None:
+                            kept = narrowed(elem, t[2])
+        if kept is not None:
+            return V("pair", kept.m, fuzzy=kept.fuzzy or rv.fuzzy)
+        return V("pair", rv.m, fuzzy=rv.fuzzy or len(rv.m) > 1)
+
+    def _ev_method(self, n, m, recv, args, env):
+        rv = self._ev(recv, env)
+        if call_name(n) in self.fns:
+            # a builder written as a method
+            vals = [self._ev(a, env) for a in args]
+            self._out_params(args, vals, env)
+            return self._call_fn(call_name(n), [rv] + vals)
+        recv_is_pair = (n.get("recv_adt") or n.get("self_adt") or "") == PAIR_ADT or is_pair_ty(_ty(recv)) or \
+            norm(n.get("callee") or "").startswith((PAIREXT, PAIR_ADT + "::"))
+        if recv_is_pair and not (call_name(n) in self.fns):
+            return self._ev_pair_method(n, m, recv, rv, args, env)
+        rl = peel(recv)
+        rlocal = rl["local"] if rl.get("k") == "Path" and "local" in rl else None
+        # ---- iterator / option plumbing
+        if m in ELEM:
+            for a in args:
+                self._ev(a, env)
+            if rv is not None and rv.kind == "seq":
+                if rv.pos and m == "next" and self._loopdepth == 0:
+                    par, k = rv.pos
+                    if rlocal is not None:
+                        env[rlocal] = self._inner(par, k + 1)
+                    return self._at(par, k)
+                if rv.pos and m == "peek" and self._loopdepth == 0:
+                    return self._at(rv.pos[0], rv.pos[1])
+                if rv.pos and rlocal is not None and m not in ("peek", "first", "last", "get", "peek_mut"):
+                    env[rlocal] = V("seq", rv.m, fuzzy=rv.fuzzy)
+                # some element of the sequence: which of several rules can stand at this place is not known, unless every element is
+                # visited (the loop idiom)
+                return V("opt", rv.m, fuzzy=rv.fuzzy or (len(rv.m) > 1 and self._loopdepth == 0))
+            if rv is not None and rv.kind == "opt":
+                return rv
+            return mkval(rv)
+        if m in UNWRAP:
+            others = [self._ev(a, env) for a in args if a.get("k") != "Closure"]
+            for a in args:
+                if a.get("k") == "Closure":
+                    others.append(self._apply(V("closure", node=a), [], env))
+            if rv is not None and rv.kind == "opt":
+                out = V("pair", rv.m, fuzzy=rv.fuzzy)
+                for o in others:
+                    if o is not None and o.kind == "pair":
+                        out = join(out, o)
+                return out
+            return rv if not others else (rv if all(o is None for o in others) else mkval(rv, *others))
+        if m in SELECT and args:
+            if rv is not None and rv.kind in ("seq", "opt"):
+                kept = self._select(m, rv, args, env)
+                kind = "opt" if (SELECT[m] == "opt" or rv.kind == "opt") else "seq"
+                if m == "retain" and rlocal is not None:
+                    env[rlocal] = V("seq", kept.m, fuzzy=kept.fuzzy)
+                    return None
+                return V(kind, kept.m, fuzzy=kept.fuzzy)
+            vals = [self._ev(a, env) for a in args if a.get("k") != "Closure"]
+            for a in args:
+                if a.get("k") == "Closure":
+                    vals.append(self._apply(V("closure", node=a), [self._elem(rv)], env))
+            return mkval(rv, *vals)
+        if m in GROW and rlocal is not None:
+            vals = [self._ev(a, env) for a in args]
+            cur = env.get(rlocal)
+            item = None
+            for v in vals:
+                item = join(item, v) if item is None or v is None or item.kind == v.kind else mkval(item, v)
+            if item is not None and item.kind in ("pair", "seq", "opt") and (cur is None or cur.kind == "seq" or not cur.m):
+                env[rlocal] = join(V("seq", cur.m if cur is not None else {}, fuzzy=bool(cur is not None and cur.fuzzy)),
+                                   V("seq", item.m, fuzzy=item.fuzzy))
+            else:
+                env[rlocal] = join(mkval(cur), mkval(item)) if (cur is not None or item is not None) else None
+            return None
+        fn_args = [a for a in args if a.get("k") == "Closure" or (peel(a).get("k") == "Path" and peel(a).get("dk") in ("Fn", "AssocFn"))
+                   or (peel(a).get("k") == "Path" and "local" in peel(a) and (env.get(peel(a)["local"]) is not None)
+                       and env.get(peel(a)["local"]).kind in ("closure", "fn"))]
+        if fn_args:
+            elem = self._elem(rv)
+            fids = {id(a) for a in fn_args}
+            others = [self._ev(a, env) for a in args if id(a) not in fids]
+            acc = mkval(*others)
+            results = []
+            for a in fn_args:
+                fv = self._ev(a, env)
+                results.append(self._apply(fv, self._closure_args(a, elem, acc), env))
+            res = None
+            for r in results:
+                res = join(res, r)
+            if m in ("for_each", "inspect", "any", "all", "position", "max_by_key", "min_by_key", "max_by", "min_by", "sort_by_key", "sort_by",
+                     "is_some_and", "is_none_or", "partition", "dedup_by_key"):
+                if m in ("max_by_key", "min_by_key", "max_by", "min_by", "inspect") and rv is not None and rv.kind in ("seq", "opt"):
+                    return V(rv.kind if m == "inspect" else "opt", rv.m, fuzzy=rv.fuzzy or (m != "inspect" and len(rv.m) > 1))
+                return mkval(rv, res)
+            if res is not None and res.kind in PAIRLIKE and rv is not None and rv.kind in ("seq", "opt"):
+                # map(|p| p.only_child()) / filter_map / flat_map(|p| p.into_inner()) / and_then
+                kind = "seq" if (rv.kind == "seq" or res.kind == "seq") else "opt"
+                out = V(kind, res.m, fuzzy=res.fuzzy or rv.fuzzy)
+                for o in others:
+                    if o is not None and o.kind in PAIRLIKE:
+                        out = V(kind, m_join(out.m, o.m), fuzzy=out.fuzzy or o.fuzzy)
+                return out
+            return mkval(rv, res, *others)
+        vals = [self._ev(a, env) for a in args]
+        if m in PASS or m in PASS_NOPOS:
+            if rv is not None and rv.kind == "seq":
+                out = rv if (m in PASS and m not in PASS_NOPOS) else V("seq", rv.m, fuzzy=rv.fuzzy)
+                for v in vals:
+                    if v is not None and v.kind in ("seq", "opt", "pair") and m in ("chain",):
+                        out = V("seq", m_join(out.m, v.m), fuzzy=out.fuzzy or v.fuzzy)
+                return out
+            if rv is not None and rv.kind in ("opt", "pair", "text", "tuple"):
+                return rv
+            return mkval(rv, *vals)
+        self._out_params(args, vals, env)
+        out = mkval(rv, *vals)
+        if rlocal is not None and (n.get("recv_ty") or "").startswith("&mut") and _ty(n) in ("()", ""):
+            # an unknown mutator: the receiver now also derives from the arguments
+            cur = env.get(rlocal)
+            if cur is None or cur.kind not in PAIRLIKE:
+                new = mkval(cur, *vals)
+                if new is not None:
+                    env[rlocal] = new
+            elif cur.pos:
+                env[rlocal] = V(cur.kind, cur.m, fuzzy=cur.fuzzy)
+        if rv is not None and rv.kind in ("seq", "opt") and has_pair_ty(_ty(n)):
+            # an adaptor this model does not know that still yields pairs: at most the receiver's (and the arguments') elements
+            mm = rv.m
+            for v in vals:
+                if v is not None and v.kind in PAIRLIKE:
+                    mm = m_join(mm, v.m)
+            kind = "pair" if is_pair_ty(_ty(n)) else ("opt" if _ty(n).startswith("core::option::Option<") else "seq")
+            return V(kind, mm, fuzzy=True)
+        return out
+
+    def _ev_pair_method(self, n, m, recv, rv, args, env):
+        f = self.cur
+        rl = peel(recv)
+        rlocal = rl["local"] if rl.get("k") == "Path" and "local" in rl else None
+        if rv is not None and rv.kind == "opt":
+            rv = V("pair", rv.m, fuzzy=True)
+        S = rv if (rv is not None and rv.kind == "pair") else None
+        vals = [self._ev(a, env) for a in args]
+        if rv is None:
+            return None     # not reached yet (bottom)
+        if m == "only_child":
+            if S is None:
+                return mkval(rv, fuzzy=True)
+            out = {}
+            for R in sorted(S.m):
+                L = self._lang(R)
+                ls = G.lengths(L)
+                self._ob("only_child", f, n, R, ls == {1}, "children of %s = %s" % (R, G.show(L)), {"lengths": sorted(ls)}, fuzzy=S.fuzzy)
+                if R not in self._first:
+                    self._first[R] = G.first_symbols(L)
+                for c in self._first[R]:
+                    out[c] = out.get(c, E) | S.m[R] | {R}
+            return V("pair", out, fuzzy=S.fuzzy)
+        if m == "all_children":
+            r = self._rule_const(args[0], env) if args else None
+            if S is not None and r:
+                for R in sorted(S.m):
+                    al = self.g.alphabet(R) if R in self.g.rules else set()
+                    self._ob("all_children", f, n, R, al <= {r}, "children of %s = %s ; expected only %s" % (R, G.show(self._lang(R)), r),
+                             {"others": sorted(al - {r})}, fuzzy=S.fuzzy)
+                return V("seq", {r: self._child_m(S, r)})     # checked at run time: exact whatever the precision of the parent
+            if S is not None:
+                inner = self._inner(S, 0)
+                return V("seq", inner.m, fuzzy=True)
+            return mkval(rv, fuzzy=True)
+        if m == "into_inner":
+            if S is not None:
+                return self._inner(S, 0)
+            return mkval(rv, fuzzy=True)
+        if m == "as_rule":
+            if S is not None:
+                return V("ruleof", S.m, of=rlocal, fuzzy=S.fuzzy)
+            return mkval(rv)
+        if m in ("to_ident", "to_keyword") and S is not None:
+            for R in sorted(S.m):
+                self._ob("ident", f, n, R, R in self.g.rules and self.g.is_name_like(R), "%s() on a %s pair" % (m, R), {"rule": R}, fuzzy=S.fuzzy)
+        if m == "as_str" and S is not None:
+            return V("text", S.m, S.rules, of=rlocal, fuzzy=S.fuzzy)
+        if m in LEAF_READS:
+            if S is not None:
+                return V("val", S.m, S.rules, fuzzy=S.fuzzy)
+            mm, leaf, fz = prov(rv)
+            return V("val", mm, frozenset(mm), fuzzy=True) if mm else None
+        if m in ("clone", "to_owned", "borrow", "as_ref"):
+            return rv
+        if m == "is_rule":
+            return mkval(rv)
+        # a Pair method this model does not know
+        if has_pair_ty(_ty(n)):
+            if S is not None:
+                inner = self._inner(S, 0)
+                kind = "pair" if is_pair_ty(_ty(n)) else ("opt" if _ty(n).startswith("core::option::Option<") else "seq")
+                return V(kind, m_join(S.m, inner.m), fuzzy=True)
+            return mkval(rv, *vals, fuzzy=True)
+        mm, leaf, fz = prov(rv)
+        out = mkval(rv, *vals)
+        if out is not None:
+            out = V("val", out.m, out.leaf | frozenset(mm), fuzzy=out.fuzzy)
+        return out
 
     def _ev_call(self, n, env):
-        c = call_name(n)
-        vals = [self._ev(a, env) for a in n["args"]]
-        if c in self.fns and vals:
-            self._add_param(c, vals[0])
+        c = call_name(n) or ""
+        fnode = n.get("f", {})
+        args = n["args"]
+        if c.startswith("core::panicking::"):
             return None
-        if c and (c.endswith("Option::Some") or c.endswith("Result::Ok")) and vals:
-            v = vals[0]
-            return ("opt", v[1]) if v and v[0] == "pair" else v
-        if c and c.endswith("IntoIterator::into_iter") and vals:
-            return vals[0]
-        return None
-
-    def _sources(self, e, env):
-        out = set()
-        for x in subnodes(e):
-            if x.get("k") == "Path" and "local" in x:
-                v = env.get(x["local"])
-                if v and v[0] in ("pair", "opt", "seq", "val", "text"):
-                    out |= set(v[1])
+        # a closure / fn item held in a local
+        if fnode.get("k") == "Path" and "local" in fnode:
+            fv = env.get(fnode["local"])
+            vals = [self._ev(a, env) for a in args]
+            if fv is not None and fv.kind in ("closure", "fn"):
+                return self._apply(fv, vals, env)
+            return mkval(*vals)
+        last = c.split("::")[-1]
+        # RawParser::parse(Rule::X, text)
+        if last == "parse" and args and rule_of_path(peel(args[0])) and PAIRS_TY in _ty(n):
+            for a in args[1:]:
+                self._ev(a, env)
+            return V("seq", {rule_of_path(peel(args[0])): E})
+        if c in self.fns:
+            vals = [self._ev(a, env) for a in args]
+            self._out_params(args, vals, env)
+            return self._call_fn(c, vals)
+        if str(fnode.get("dk", "")).startswith("Ctor"):
+            vals = [self._ev(a, env) for a in args]
+            if c.endswith(("Option::Some", "Result::Ok")) and len(vals) == 1:
+                v = vals[0]
+                if v is not None and v.kind == "pair":
+                    return V("opt", v.m, fuzzy=v.fuzzy)
+                return v
+            return mkval(*vals)
+        if c.endswith(("Try::branch", "IntoIterator::into_iter", "Box::new", "convert::From::from", "convert::Into::into", "Rc::new", "Arc::new",
+                       "mem::take", "convert::identity", "iter::once", "Some", "Iterator::peekable", "Iterator::by_ref")) and len(args) == 1:
+            return self._ev(args[0], env)
+        # UFCS spelling of a method this model knows: Trait::method(recv, args..)
+        if fnode.get("dk") == "AssocFn" and args and (is_pair_ty(_ty(args[0])) or has_pair_ty(_ty(args[0])) or "Option<" in _ty(args[0]) or
+                                                     "Iterator" in c or "iter::" in c):
+            fake = {"k": "MethodCall", "method": last, "recv": args[0], "args": args[1:], "callee": n.get("callee"), "s": n["s"], "t": n.get("t"),
+                    "recv_adt": PAIR_ADT if is_pair_ty(_ty(args[0])) else None}
+            return self._ev_method(fake, last, args[0], args[1:], env)
+        vals = [self._ev(a, env) for a in args]
+        self._out_params(args, vals, env)
+        out = mkval(*vals)
+        if has_pair_ty(_ty(n)) and out is not None:
+            # an unknown function that yields pairs
+            pl = [v for v in vals if v is not None and v.kind in PAIRLIKE]
+            if len(pl) == 1 and len([v for v in vals if v is not None]) == 1:
+                kind = "pair" if is_pair_ty(_ty(n)) else ("opt" if _ty(n).startswith("core::option::Option<") else "seq")
+                p = pl[0]
+                mm = p.m
+                if p.kind == "pair":
+                    mm = m_join(mm, self._inner(p, 0).m)
+                return V(kind, mm, fuzzy=True)
+            return V("val", out.m, out.leaf, fuzzy=True)
         return out
